@@ -4,6 +4,7 @@ import WK.Spec.C28
   C28 driver.  ops (see harness/C28/c28.go):
     cfg <workers> <cap> <maxrec> <maxwait_us> <maxbytes>          impl/model out: ok
     phase <pseed> <nsess> <burst> <hlat> <fail%> <close%> <pushes> <act>   impl out: event trace (not compared)
+    gate <drain> <wait_ms>                                        impl out: event trace (steered admission window)
     fin                                                           impl out: event trace + snapshot
   The judge is the trace acceptor `WK.C28.verdict` run on the whole trace of
   the case so far (a violation is reported at the op whose events complete it).
@@ -40,6 +41,12 @@ def c28Step (st : C28St) (op impl : String) : C28St × String × String :=
     | some [_, ns, burst, _, _, _, _, act] =>
       if ns < 1 ∨ ns > 64 ∨ burst > 1000 ∨ act > 3 ∨ st.finished then (st, "bad-op", "ok")
       else c28Judge { st with started := true } impl
+    | _ => (st, "bad-op", "ok")
+  | "gate" :: args =>
+    match c28Ints args with
+    | some [d, w] =>
+      if d > 1 ∨ w > 5000 ∨ ¬ st.started ∨ st.finished then (st, "bad-op", "ok")
+      else c28Judge st impl
     | _ => (st, "bad-op", "ok")
   | ["fin"] =>
     if ¬ st.started ∨ st.finished then (st, "bad-op", "ok") else
